@@ -28,7 +28,7 @@ func RandomHistories(w *WorldJSON, seed int64, n, depth int, routers []string, f
 					cfg.Policy.Deny = true
 				}
 				cfg.Policy.DefType = []string{"", "", "refresh", "access"}[rng.Intn(4)]
-				cfg.Policy.Imp = []string{"", "", "u2"}[rng.Intn(3)]
+				cfg.Policy.Imp = []string{"", "", "u2@idp.example"}[rng.Intn(3)]
 				cfg.Policy.Drop = []string{"", "email"}[rng.Intn(2)]
 			}
 			if rng.Intn(3) == 0 {
@@ -146,7 +146,7 @@ func (g *gen) codeFlow(c string, emit func(string, M) M) {
 	out := emit("Authorize", M{"client": c, "uri": cl.URIs[0], "rtype": "code", "rmode": "", "scopes": []string{"openid", "email", "offline_access"},
 		"chall": chall, "state": "st1", "nonce": "n1"})
 	req := S(out, "req")
-	emit("Login", M{"req": req, "user": g.pick("u1", "u2")})
+	emit("Login", M{"req": req, "user": g.pick("u1", "u2@idp.example")})
 	out = emit("Callback", M{"req": req})
 	emit("CodeExchange", M{"caller": c, "cred": g.rightCred(c), "code": S(out, "code"), "uri": cl.URIs[0], "verifier": ver})
 }
@@ -394,7 +394,7 @@ func (g *gen) next() (string, M) {
 	case "RotateKey":
 		return op, M{"keepKid": g.rng.Intn(3) == 0}
 	case "Login":
-		return op, M{"req": g.oneOf(g.reqsWhere(false), g.existing(d.reqID, "r99")), "user": g.pick("u1", "u2")}
+		return op, M{"req": g.oneOf(g.reqsWhere(false), g.existing(d.reqID, "r99")), "user": g.pick("u1", "u2@idp.example")}
 	case "Callback":
 		return op, M{"req": g.oneOf(g.reqsWhere(true), g.existing(d.reqID, "r99"))}
 	case "CodeExchange":
@@ -502,7 +502,7 @@ func (g *gen) next() (string, M) {
 		}
 		return op, M{"caller": c, "cred": cred, "scopes": g.scopes()}
 	case "Approve", "Deny", "ExpireDevice":
-		return op, M{"dc": g.existing(d.dcRaw, "d99"), "user": g.pick("u1", "u2")}
+		return op, M{"dc": g.existing(d.dcRaw, "d99"), "user": g.pick("u1", "u2@idp.example")}
 	case "Poll":
 		dc := g.existing(d.dcRaw, "d99")
 		c := g.pick("cx", "cp", "cd", "cw")
@@ -539,7 +539,7 @@ func (g *gen) ref(preferGood bool) M {
 	d := g.d
 	if g.focus == "exchange" && g.rng.Intn(8) == 0 {
 		// a third-party token, valid in one position only
-		return M{"kind": g.pick("extSubject", "extActor"), "form": "issued", "id": g.pick("u1", "u2"), "declared": g.pick("jwt", "jwt", "jwt", "access")}
+		return M{"kind": g.pick("extSubject", "extActor"), "form": "issued", "id": g.pick("u1", "u2@idp.example"), "declared": g.pick("jwt", "jwt", "jwt", "access")}
 	}
 	switch k := g.rng.Intn(10); {
 	case k < 5:
